@@ -29,6 +29,25 @@ type shp struct {
 	Name  string
 	Polys [][][][2]int64 // polygons -> rings -> vertices (units)
 	IsBox bool
+	Milli bool // the vertices are given in 1/1000 units (many-vertex shapes)
+}
+
+func (s shp) mul() int64 {
+	if s.Milli {
+		return 1
+	}
+	return scale
+}
+
+// gon is an n-gon inscribed in the circle of radius r around (cx, cy), all in
+// 1/1000 units, rounded to integers (it stays convex for the sizes used).
+func gon(n int, cx, cy, r float64) [][2]int64 {
+	var o [][2]int64
+	for k := 0; k < n; k++ {
+		a := 2 * math.Pi * (float64(k) + 0.25) / float64(n)
+		o = append(o, [2]int64{int64(math.Round(cx + r*math.Cos(a))), int64(math.Round(cy + r*math.Sin(a)))})
+	}
+	return o
 }
 
 func catalogue(tier string) []shp {
@@ -39,23 +58,26 @@ func catalogue(tier string) []shp {
 	}
 	for _, x := range iv {
 		for _, y := range iv {
-			out = append(out, shp{fmt.Sprintf("box[%d,%d]x[%d,%d]", x[0], x[1], y[0], y[1]), [][][][2]int64{{box(x[0], y[0], x[1], y[1])}}, true})
+			out = append(out, shp{fmt.Sprintf("box[%d,%d]x[%d,%d]", x[0], x[1], y[0], y[1]), [][][][2]int64{{box(x[0], y[0], x[1], y[1])}}, true, false})
 		}
 	}
 	out = append(out,
-		shp{"tri1", [][][][2]int64{{{{0, 0}, {6, 0}, {0, 6}}}}, false},
-		shp{"tri2", [][][][2]int64{{{{0, 0}, {6, 2}, {2, 6}}}}, false},
-		shp{"L", [][][][2]int64{{{{0, 0}, {6, 0}, {6, 2}, {2, 2}, {2, 6}, {0, 6}}}}, false},
-		shp{"C", [][][][2]int64{{{{0, 0}, {6, 0}, {6, 2}, {2, 2}, {2, 4}, {6, 4}, {6, 6}, {0, 6}}}}, false},
-		shp{"box-hole", [][][][2]int64{{box(0, 0, 6, 6), box(2, 2, 4, 4)}}, false},
-		shp{"box-2holes", [][][][2]int64{{box(0, 0, 8, 6), box(1, 1, 3, 3), box(5, 2, 7, 5)}}, false},
-		shp{"two-boxes", [][][][2]int64{{box(0, 0, 2, 2)}, {box(4, 4, 6, 6)}}, false},
-		shp{"box+box-hole", [][][][2]int64{{box(0, 0, 2, 6)}, {box(4, 0, 8, 6), box(5, 1, 7, 3)}}, false},
-		shp{"island-in-hole", [][][][2]int64{{box(0, 0, 8, 8), box(2, 2, 6, 6)}, {box(3, 3, 5, 5)}}, false},
-		shp{"pentagon", [][][][2]int64{{{{1, 0}, {5, 0}, {6, 3}, {3, 6}, {0, 3}}}}, false},
+		shp{"tri1", [][][][2]int64{{{{0, 0}, {6, 0}, {0, 6}}}}, false, false},
+		shp{"tri2", [][][][2]int64{{{{0, 0}, {6, 2}, {2, 6}}}}, false, false},
+		shp{"L", [][][][2]int64{{{{0, 0}, {6, 0}, {6, 2}, {2, 2}, {2, 6}, {0, 6}}}}, false, false},
+		shp{"C", [][][][2]int64{{{{0, 0}, {6, 0}, {6, 2}, {2, 2}, {2, 4}, {6, 4}, {6, 6}, {0, 6}}}}, false, false},
+		shp{"box-hole", [][][][2]int64{{box(0, 0, 6, 6), box(2, 2, 4, 4)}}, false, false},
+		shp{"box-2holes", [][][][2]int64{{box(0, 0, 8, 6), box(1, 1, 3, 3), box(5, 2, 7, 5)}}, false, false},
+		shp{"two-boxes", [][][][2]int64{{box(0, 0, 2, 2)}, {box(4, 4, 6, 6)}}, false, false},
+		shp{"box+box-hole", [][][][2]int64{{box(0, 0, 2, 6)}, {box(4, 0, 8, 6), box(5, 1, 7, 3)}}, false, false},
+		shp{"island-in-hole", [][][][2]int64{{box(0, 0, 8, 8), box(2, 2, 6, 6)}, {box(3, 3, 5, 5)}}, false, false},
+		shp{"pentagon", [][][][2]int64{{{{1, 0}, {5, 0}, {6, 3}, {3, 6}, {0, 3}}}}, false, false},
 		// a non-convex (U-shaped) hole: an operand can have all its vertices in
 		// the hole's arms while an edge crosses the notch between them
-		shp{"box-Uhole", [][][][2]int64{{box(0, 0, 8, 8), {{1, 1}, {7, 1}, {7, 7}, {5, 7}, {5, 3}, {3, 3}, {3, 7}, {1, 7}}}}, false},
+		// many vertices: a 64-gon, and a 100-gon with a 65-gon hole
+		shp{Name: "gon64", Polys: [][][][2]int64{{gon(64, 3000, 3000, 2950)}}, Milli: true},
+		shp{Name: "gon100-hole65", Polys: [][][][2]int64{{gon(100, 3100, 2900, 3333), gon(65, 3000, 3000, 1777)}}, Milli: true},
+		shp{"box-Uhole", [][][][2]int64{{box(0, 0, 8, 8), {{1, 1}, {7, 1}, {7, 7}, {5, 7}, {5, 3}, {3, 3}, {3, 7}, {1, 7}}}}, false, false},
 	)
 	return out
 }
@@ -76,7 +98,7 @@ func region(s shp, rev bool, dx, dy int64) exact.Region {
 		for _, ring := range pg {
 			var o []exact.Pt
 			for _, v := range ring {
-				o = append(o, exact.Pt{X: v[0]*scale + dx, Y: v[1]*scale + dy})
+				o = append(o, exact.Pt{X: v[0]*s.mul() + dx, Y: v[1]*s.mul() + dy})
 			}
 			if rev {
 				for i, j := 0, len(o)-1; i < j; i, j = i+1, j-1 {
@@ -135,7 +157,7 @@ func toGeom(s shp, rev bool, dx, dy int64) geom.MultiPolygon {
 		for _, ring := range pg {
 			var o geom.Path
 			for _, v := range ring {
-				o = append(o, geom.Point{X: float64(v[0]*scale+dx) / scale, Y: float64(v[1]*scale+dy) / scale})
+				o = append(o, geom.Point{X: float64(v[0]*s.mul()+dx) / scale, Y: float64(v[1]*s.mul()+dy) / scale})
 			}
 			if rev {
 				for i, j := 0, len(o)-1; i < j; i, j = i+1, j-1 {
@@ -435,7 +457,7 @@ func main() {
 		return
 	}
 	rep = report.New("C01", tier, "model_checking")
-	rep.Rule = "E1: operand catalogue (9 (36) axis-aligned boxes, 2 triangles, L, C, pentagon, box with 1 and 2 holes, two disjoint boxes, box + box-with-hole, island inside a hole, box with a U-shaped hole) in both windings for A and B, B translated by every vector of a 4x4 (8x8) odd-integer grid + (0.37,0.41), every receiver/argument cast {Polygon, MultiPolygon, *Bounds} x {Intersection, Union, Difference, XOr}; a third of the pairs again with both operands cut from flat vertex buffers (same areas, buffers not written, earlier results intact after later operations); the catalogue pairs again under 3 affine maps with non-representable coefficients (rotation by 30 deg, shear+scale, reflection) and 2 exact scalings (2^-20, 2^30; areas scale by |det|, references on the integer pre-images); pairs not in general position (exact integer test) are skipped and counted. Oracle: even-odd membership of ~2400 lattice points with an exactly verified 0.05 margin must equal the boolean combination; region area of the result (slab decomposition) must equal the slab-decomposition area of the true region (rel 1e-9); rings closed for Polygon/MultiPolygon receivers; empty result only if the true area is 0. Non-trivial = operand pairs that cross or nest."
+	rep.Rule = "E1: operand catalogue (9 (36) axis-aligned boxes, 2 triangles, L, C, pentagon, box with 1 and 2 holes, two disjoint boxes, box + box-with-hole, island inside a hole, box with a U-shaped hole, a 64-gon, a 100-gon with a 65-gon hole) in both windings for A and B, B translated by every vector of a 4x4 (8x8) odd-integer grid + (0.37,0.41), every receiver/argument cast {Polygon, MultiPolygon, *Bounds} x {Intersection, Union, Difference, XOr}; a third of the pairs again with both operands cut from flat vertex buffers (same areas, buffers not written, earlier results intact after later operations); the catalogue pairs again under 3 affine maps with non-representable coefficients (rotation by 30 deg, shear+scale, reflection) and 2 exact scalings (2^-20, 2^30; areas scale by |det|, references on the integer pre-images); pairs not in general position (exact integer test) are skipped and counted. Oracle: even-odd membership of ~2400 lattice points with an exactly verified 0.05 margin must equal the boolean combination; region area of the result (slab decomposition) must equal the slab-decomposition area of the true region (rel 1e-9); rings closed for Polygon/MultiPolygon receivers; empty result only if the true area is 0. Non-trivial = operand pairs that cross or nest."
 	cat := catalogue(tier)
 	offs := []int64{-7, -3, 1, 5}
 	if tier == "thorough" {
